@@ -1,0 +1,117 @@
+//go:build verif
+
+// Verification hooks for property C11 (role state/status aggregation). Add-only; compiled only
+// with -tags verif. Nothing here changes the behaviour of the package.
+
+package workflow
+
+import (
+	"errors"
+
+	"github.com/AliceO2Group/Control/core/repos"
+	"github.com/AliceO2Group/Control/core/task"
+	"github.com/AliceO2Group/Control/core/task/sm"
+	"gopkg.in/yaml.v3"
+)
+
+// VerifC11Load builds a role tree the way Load does (yaml.Unmarshal into a fresh aggregatorRole,
+// setParent, ProcessTemplates) without the repository manager, the task manager and the file
+// system: `include:` expressions are resolved against subs (keyed by the expression as written
+// in the template).
+func VerifC11Load(doc []byte, subs map[string][]byte, parent Updatable) (Role, error) {
+	repo := &repos.Repo{HostingSite: "verif", Path: "c11", RepoName: "wf", Hash: "0", Default: true}
+	var loadSubworkflow LoadSubworkflowFunc
+	parse := func(yamlDoc []byte, parent Updatable) (*aggregatorRole, error) {
+		root := new(aggregatorRole)
+		root.parent = parent
+		if err := yaml.Unmarshal(yamlDoc, root); err != nil {
+			return nil, err
+		}
+		if parent != nil {
+			root.setParent(parent)
+		}
+		return root, nil
+	}
+	loadSubworkflow = func(workflowPathExpr string, parent Updatable) (*aggregatorRole, repos.IRepo, error) {
+		for k, v := range subs {
+			if repo.ResolveSubworkflowTemplateIdentifier(k) == workflowPathExpr || k == workflowPathExpr {
+				root, err := parse(v, parent)
+				return root, repo, err
+			}
+		}
+		return nil, nil, errors.New("verif: unknown subworkflow " + workflowPathExpr)
+	}
+	root, err := parse(doc, parent)
+	if err != nil {
+		return nil, err
+	}
+	if err = root.ProcessTemplates(repo, loadSubworkflow, map[string]string{}); err != nil {
+		return nil, err
+	}
+	return root, nil
+}
+
+// VerifC11Kind names the concrete role type: task, call, aggregator, include, iterator.
+func VerifC11Kind(r Role) string {
+	switch r.(type) {
+	case *taskRole:
+		return "task"
+	case *callRole:
+		return "call"
+	case *includeRole:
+		return "include"
+	case *aggregatorRole:
+		return "aggregator"
+	case *iteratorRole:
+		return "iterator"
+	}
+	return "unknown"
+}
+
+// VerifC11SetCached overwrites the cached state and status of one role (what role_test.go does
+// by constructing roles with a given SafeState).
+func VerifC11SetCached(r Role, st sm.State, status task.Status) {
+	var b *roleBase
+	switch t := r.(type) {
+	case *taskRole:
+		b = &t.roleBase
+	case *callRole:
+		b = &t.roleBase
+	case *includeRole:
+		b = &t.roleBase
+	case *aggregatorRole:
+		b = &t.roleBase
+	default:
+		return
+	}
+	b.state.mu.Lock()
+	b.state.state = st
+	b.state.mu.Unlock()
+	b.status.mu.Lock()
+	b.status.status = status
+	b.status.mu.Unlock()
+}
+
+// VerifC11Recompute sets the cached state and status of an aggregator/include role to what the
+// package's own aggregateState / aggregateStatus compute from its current children (no-op on
+// other roles). Called bottom-up by the harness to start from caches that the code itself
+// considers consistent.
+func VerifC11Recompute(r Role) {
+	var b *roleBase
+	switch t := r.(type) {
+	case *includeRole:
+		b = &t.roleBase
+	case *aggregatorRole:
+		b = &t.roleBase
+	default:
+		return
+	}
+	st := aggregateState(r.GetRoles())
+	status := aggregateStatus(r.GetRoles())
+	b.state.mu.Lock()
+	b.state.state = st
+	b.state.mu.Unlock()
+	b.status.mu.Lock()
+	b.status.status = status
+	b.status.mu.Unlock()
+}
